@@ -240,7 +240,12 @@ func (pr *Projector) Project(m map[string]any) Proj {
 		if d, ok := m["data"].(map[string]any); ok && len(d) <= 4 {
 			p.Data = map[string]string{}
 			for k, v := range d {
-				p.Data[k], _ = v.(string)
+				sv, _ := v.(string)
+				if len(sv) > 64 {
+					// large values are projected to a digest (the content hash of the object is projected separately)
+					sv = fmt.Sprintf("%s...#%s", sv[:8], shortHash(sv))
+				}
+				p.Data[k] = sv
 			}
 		}
 	}
